@@ -81,6 +81,7 @@ def run(ctx):
     ctx.do(rule_loop_flags_monotone, "C04.flag-back", ("stix2.base", "stix2.properties"))
     ctx.do(rule_reference_flag_truth_table)
     ctx.do(rule_detecting_slot_kinds)
+    ctx.do(rule_refusal_and_flag_from_the_same_source)
     # every value goes through its cleaner: the constructor pipeline (C02's clauses) is what applies the refusal at all
     from . import C02 as _C02
     ctx.do_as(_C02.rule_init_pipeline, {"C02.init-pipeline": "C04.every-value-cleaned"})
@@ -1150,3 +1151,32 @@ def rule_detecting_slot_kinds(ctx, R="C04.flag-back"):
                       file=d.file, line=d.line, function=cname, expected=d.expected, found=d.found)
     if n < 150:
         raise AnalysisError("fewer than 150 customisation-detecting slots found (%d): table extraction lost" % n)
+
+
+def rule_refusal_and_flag_from_the_same_source(ctx, R="C04.flag-back"):
+    """A cleaner that REFUSES a value in strict mode because of `<value>.has_custom` knows where the customisation is; in
+    lenient mode it hands the same fact back as its flag.  A clean() that tests `.has_custom` for the refusal and returns a
+    constant flag on every path admits the content on request and then denies it is there (the object's has_custom stays
+    False while a strict parse of its serialisation is refused).  For every clean() of a Property class that reads
+    `.has_custom`: some returned flag derives from it."""
+    run = ctx.run
+    prog = ctx.prog
+    n = 0
+    for fi in sorted(prog.functions.values(), key=lambda f: f.id):
+        if fi.name != "clean" or fi.cls is None or fi.module.relpath.startswith("stix2/test"):
+            continue
+        if not any(getattr(k_, "name", None) == "Property" for k_ in (fi.cls.mro or [])):
+            continue
+        reads = [x for x in body_walk(fi.node) if isinstance(x, ast.Attribute) and x.attr == "has_custom" and isinstance(x.ctx, ast.Load)]
+        if not reads:
+            continue
+        n += 1
+        fl = flow_of(fi)
+        flags = [r.value.elts[1] for r in returns_of(fi) if isinstance(r.value, ast.Tuple) and len(r.value.elts) == 2]
+        derived = any(any(isinstance(x, ast.Attribute) and x.attr == "has_custom" for e in [f_] + fl.prov(f_).exprs for x in ast.walk(e)) for f_ in flags)
+        run.check(derived or not flags, R, key(fi.module.relpath, fi.qualname, "flag-from-what-the-refusal-tests"),
+                  "clean() tests `.has_custom` (for the strict refusal) but no flag it returns derives from it: customisation "
+                  "admitted on request is not reported", file=fi.module.relpath, line=fi.node.lineno, function=fi.qualname,
+                  expected="return <value>, <value>.has_custom", found=[short(f_, 40) for f_ in flags])
+    if n < 4:
+        raise AnalysisError("fewer than 4 cleaners read .has_custom (%d)" % n)
